@@ -39,6 +39,8 @@ PRELUDE = [
     [S("defmacro"), S("twice"), [S("e")], QQ([S("list"), UQ(S("e")), UQ(S("e"))])],
     [S("defun"), S("fail-with"), [S("c"), S("d")], [S("error"), S("c"), S("d")]],
     [S("defun"), S("safe-div"), [S("a"), S("b")], [S("handler-bind"), [[S("condition"), L([S("c"), S("&rest"), S("r")], Q(S("div-failed")))]], [S("if"), [S("="), S("b"), 0], [S("error"), Q(S("div-zero")), S("a")], [S("/"), S("a"), S("b")]]]],
+    # a tail loop that ends well for n >= 0 and raises at the bottom for n < 0 (after its iterations were collapsed)
+    [S("defun"), S("down-then-fail"), [S("n")], [S("if"), [S("="), S("n"), 0], 0, [S("if"), [S("="), S("n"), -1], [S("error"), Q(S("cond-a")), S("n")], [S("down-then-fail"), [S("if"), [S(">"), S("n"), 0], [S("-"), S("n"), 1], [S("+"), S("n"), 1]]]]]],
     [S("in-package"), Q(S("lib"))],
     [S("export"), Q(S("lib-inc")), Q(S("lib-var")), Q(S("lib-apply"))],
     [S("set"), Q(S("lib-hidden")), 2], [S("set"), Q(S("lib-var")), 40],
@@ -160,6 +162,30 @@ class Mix:
 
     def failing_int(self, d):
         r = self.r
+        if r.random() < 0.45:
+            # failures that happen inside a callback or a later call AFTER a tail loop has run (and been collapsed) in the
+            # same builtin call, operator or function: what the error reports is the place of the call that failed
+            ns = lambda: [S("list")] + [r.choice([0, 1, 2, 3]) for _ in range(r.randrange(0, 3))] + [r.choice([-1, -2, -3])] + [r.choice([1, 2]) for _ in range(r.randrange(0, 2))]
+            return r.choice([
+                lambda: [S("map"), Q(S("list")), r.choice([S("down-then-fail"), Q(S("down-then-fail")), L([S("e")], [S("down-then-fail"), S("e")])]), ns()],
+                lambda: [S("foldl"), L([S("acc"), S("e")], [S("+"), S("acc"), [S("down-then-fail"), S("e")]]), 0, ns()],
+                lambda: [S("foldr"), L([S("e"), S("acc")], [S("down-then-fail"), S("e")]), 0, ns()],
+                lambda: [S(r.choice(["select", "reject"])), Q(S("list")), L([S("e")], [S("="), 0, [S("down-then-fail"), S("e")]]), ns()],
+                lambda: [S(r.choice(["any?", "all?"])), L([S("e")], [S("="), 1, [S("down-then-fail"), S("e")]]), ns()],
+                lambda: [S("stable-sort"), L([S("p"), S("q")], [S("<"), [S("down-then-fail"), S("p")], S("q")]), ns()],
+                lambda: [S("progn"), [S("down-then-fail"), r.randrange(1, 4)], [S("down-then-fail"), r.choice([-1, -2])]],
+                lambda: [S("+"), [S("down-then-fail"), r.randrange(1, 4)], [S("down-then-fail"), r.choice([-1, -3])]],
+                lambda: [S("apply"), S("down-then-fail"), [S("list"), r.choice([-1, -2])]],
+                lambda: [S("funcall"), L([S("k")], [S("down-then-fail"), 2], [S("down-then-fail"), S("k")]), r.choice([-1, -2])],
+                lambda: [S("lib:lib-apply"), S("down-then-fail"), r.choice([-1, -2, -3])],
+                lambda: [S("my-when"), S("true"), [S("down-then-fail"), 2], [S("down-then-fail"), r.choice([-1, -2])]],
+                lambda: [S("thread-first"), r.choice([-1, -2]), [S("down-then-fail")], [S("inc")]],
+                lambda: [S("dotimes"), [S("i"), 4], [S("down-then-fail"), [S("-"), r.randrange(1, 3), S("i")]]],
+                lambda: [S("let"), [[S("v"), [S("down-then-fail"), 3]]], [S("list"), S("v"), [S("down-then-fail"), -2]]],
+                lambda: [S("assert"), [S(r.choice(["even-p", "odd-p"])), r.randrange(1, 4)]],
+                lambda: [S("count-down"), 2, [S("list"), [S("down-then-fail"), r.choice([-1, -2])]]],
+                lambda: [S("cond"), [[S("="), 1, [S("down-then-fail"), 2]], 5], [[S("="), 0, [S("down-then-fail"), -2]], 6], [S(":else"), 7]],
+            ])()
         c = r.randrange(9)
         if c == 0:
             return [S("fail-with"), Q(S(r.choice(CONDS))), self.int_(d - 1)]
@@ -309,4 +335,37 @@ def mix_program(rnd, nforms=None, depth=4, guard=True):
         e = g.any_(depth)
         forms.append([S("probe"), Q(S("v")), GUARD(e) if guard else e])
     forms.append([S("probe"), Q(S("end")), S("g1"), S("g2"), S("lst"), [S("funcall"), S("ctr")]])
+    return forms
+
+
+def mix_fail_program(rnd, depth=3):
+    """a mix program whose LAST form fails unguarded (C18 compares the position the error carries and every frame of its
+    stack): the failure sits under a short chain of wrappers, in some programs behind a handler that rethrows it"""
+    g = Mix(rnd)
+    forms = list(PRELUDE)
+    for j in range(rnd.randrange(0, 3)):
+        forms.append([S("probe"), Q(S("v")), GUARD(g.any_(depth))])
+    e = g.failing_int(depth)
+    for _ in range(rnd.randrange(0, 3)):
+        w = rnd.randrange(8)
+        if w == 0:
+            e = [S("let"), [[S("z"), 1]], e]
+        elif w == 1:
+            e = [S("progn"), [S("probe"), Q(S("before"))], e]
+        elif w == 2:
+            e = [S("list"), 1, e]
+        elif w == 3:
+            e = [S("inc"), e]
+        elif w == 4:
+            e = [S("if"), S("true"), e, 0]
+        elif w == 5:
+            e = [S("funcall"), L([], e)]
+        elif w == 6:
+            e = [S("with-probe"), S("t9"), e]
+        else:
+            e = [S("or"), [], e]
+    if rnd.random() < 0.3:
+        e = [S("handler-bind"), [[S("condition"), L([S("c"), S("&rest"), S("r")], [S("capture")], [S("rethrow")])]], e]
+    forms.append(e)
+    forms.append([S("probe"), Q(S("not-reached"))])
     return forms
